@@ -96,6 +96,9 @@ def generate(rng, cfg, guards):
             ops.append([k, rng.wpick(LINKKINDS), r8(), r8(), r8(), r8(), rng.pick(sorted(LF.ONE)), r8(), rng.pick(sorted(LF.TWO)), rng.chance(0.4)])
         elif k == 'join':
             ops.append([k, r8(), r8(), r8(), r8()])
+            if rng.chance(0.5):
+                # ... and a selection on the partner, which the first dataset can only evaluate through the join
+                ops.append(['new_group', ['ineq', ops[-1][3], r8(), rng.randrange(6), rng.randrange(-3, 12) + 0.5]])
         elif k == 'new_group':
             ops.append([k, W.gen_recipe(rng, rng.pick([0, 1, 2]), kinds, multior='C02-state-multior' not in guards)])
         elif k == 'set_state':
@@ -219,6 +222,9 @@ def snapshot(w, relax_links=False):
             if isinstance(k, str) and json_able(v):
                 meta[k] = v
         rec['meta'] = sorted((k, repr(v)) for k, v in meta.items())
+        # key joins as defined: partner, key attributes on this side, key attributes on the other side (in order: first with first)
+        rec['joins'] = sorted([getattr(o, 'label', None), [c.label for c in c1], [c.label for c in c2]]
+                              for o, (c1, c2) in getattr(d, '_key_joins', {}).items())
         out['data'].append(rec)
     for g in groups:
         out['groups'].append({'label': g.label, 'style': sorted(W.style_of(g.style).items()), 'tree': class_tree(g.subset_state),
@@ -304,8 +310,8 @@ def first_diff(a, b):
         if wild:
             da = dict(da, masks=[m for m in da['masks'] if m[0] not in wild])
             db = dict(db, masks=[m for m in db['masks'] if m[0] not in wild])
-        for key in ('label', 'shape', 'coords', 'comps', 'ext', 'masks', 'style', 'meta'):
-            if da[key] != db[key]:
+        for key in ('label', 'shape', 'coords', 'comps', 'ext', 'masks', 'style', 'meta', 'joins'):
+            if da.get(key) != db.get(key):
                 xa = [x for x in da[key] if x not in db[key]] if isinstance(da[key], list) else da[key]
                 xb = [x for x in db[key] if x not in da[key]] if isinstance(db[key], list) else db[key]
                 detail = ''
@@ -439,7 +445,7 @@ def _execute(case, res, tmp, fs):
                     continue
                 m1 = [c for c in d1.main_components if d1.get_kind(c) == 'numerical']
                 m2 = [c for c in d2.main_components if d2.get_kind(c) == 'numerical']
-                if (op[2] + op[4]) % 3 == 0 and len(m1) >= 2 and len(m2) >= 2:
+                if (op[2] + op[4]) % 2 == 0 and len(m1) >= 2 and len(m2) >= 2:
                     # multi-column join; the order of the key tuples matters (first with first, second with second)
                     k1 = (m1[op[2] % len(m1)], m1[(op[2] + 1) % len(m1)])
                     k2 = (m2[op[4] % len(m2)], m2[(op[4] + 1) % len(m2)])
